@@ -324,6 +324,35 @@ func junkAllowed(j string, avoid map[int]bool) bool {
 	return true
 }
 
+// junkConflicts parses the assembled junk with the reference automaton and
+// reports whether it contains, possibly composed from several items, a report
+// of the shape of a reply to one of the queries this run makes.
+func junkConflicts(b []byte, avoid map[int]bool) bool {
+	if len(avoid) == 0 {
+		return false
+	}
+	p := simterm.NewParser()
+	items := append(p.Feed(b), p.Flush()...)
+	for _, it := range items {
+		switch it.Kind {
+		case simterm.KCSI:
+			if avoid[0] && it.Final == 'R' {
+				return true
+			}
+		case simterm.KOSC:
+			d := string(it.Data)
+			if avoid[1] && strings.HasPrefix(d, "4") || avoid[2] && strings.HasPrefix(d, "10") ||
+				avoid[3] && strings.HasPrefix(d, "11") || avoid[4] && strings.HasPrefix(d, "52") {
+				return true
+			}
+		case simterm.KTaint:
+			// undefined region: be conservative
+			return avoid[0] || avoid[1] || avoid[2] || avoid[3] || avoid[4]
+		}
+	}
+	return false
+}
+
 func genJunk(t *simrt.Tape, avoid map[int]bool) ([]byte, []string) {
 	var out []byte
 	var desc []string
@@ -408,7 +437,16 @@ func (w *inputWorld) Build(t *simrt.Tape, spec RunSpec) {
 				sg.Desc = append(sg.Desc, d)
 			}
 		} else {
-			sg.Bytes, sg.Desc = genJunk(t, avoid)
+			for try := 0; ; try++ {
+				sg.Bytes, sg.Desc = genJunk(t, avoid)
+				if !junkConflicts(sg.Bytes, avoid) {
+					break
+				}
+				if try == 5 {
+					sg.Bytes, sg.Desc = []byte("\x18\x1b[201~"), []string{"(empty)"}
+					break
+				}
+			}
 		}
 		sg.Sentinel = next
 		next++
